@@ -18,6 +18,14 @@ MODULE = "AurelVerif.Props.C07"
 THEOREMS = ["AurelVerif.C07." + t for t in (
     "stencil_tables_ok", "exact_on_polynomials", "onesided_spec", "periodic_spec",
     "symmetric_spec", "onesided_exact_everywhere", "d3_natural", "transpose12_involutive")]
+MODULE_C = "AurelVerif.Props.C07c"
+# the analytic half: truncation error of the operators on smooth fields (Taylor + moment conditions)
+THEOREMS_C = ["AurelVerif.C07." + t for t in (
+    "truncation_error", "truncation_error_contDiffOn", "truncation_error_contDiff",
+    "truncation_constants", "scheme_truncation_constants", "table_truncation_error",
+    "onesided_accurate_everywhere", "onesided_accurate_contDiffOn",
+    "periodic_accurate_everywhere", "periodic_accurate_contDiff", "symmetric_accurate_everywhere",
+    "order_add", "order_sub", "order_mul", "order_div", "order_expr")]
 BND = {"none": "no boundary", "periodic": "periodic", "symmetric": "symmetric"}
 
 
@@ -193,7 +201,9 @@ def run(ctx):
                     "Model/Splice.lean is hand-written; tied to d3x/d3y/d3z, d3_* by exact weight-matrix correspondence",
                     "numpy slicing/concatenate/transpose semantics; IEEE float: one-hot products and float(Fraction) are exact"]
     ctx.assumptions += ["round-off of the floating-point evaluation is not modelled (exact field)",
-                        "consistency+accuracy => convergence order is classical numerical analysis, not formalised"]
+                        "operator accuracy on smooth fields (|D f - f'| <= C M h^p at every grid point) and error propagation "
+                        "through ring operations / safe divisions ARE formalised (Props/C07c); NOT formalised: nested differences "
+                        "(D(D f)) keep the order - needs discrete product/commutation estimates"]
     # 1. regenerate
     try:
         changed, info = stencils.regen()
@@ -206,11 +216,15 @@ def run(ctx):
         ctx.prove(MODULE, THEOREMS)
         ctx.prove("AurelVerif.Props.C07b", ["AurelVerif.C07." + t for t in (
             "rowValue_add", "rowValue_smul", "rowValue_neg", "rowValue_zero", "evalLin_relabel", "d3_linear")])
-        ctx.forbidden_scan(["AurelVerif/Props/C07.lean", "AurelVerif/Props/C07b.lean", "AurelVerif/Lemmas/Stencil.lean",
+        ctx.prove(MODULE_C, THEOREMS_C)
+        ctx.forbidden_scan(["AurelVerif/Props/C07.lean", "AurelVerif/Props/C07b.lean", "AurelVerif/Props/C07c.lean",
+                            "AurelVerif/Lemmas/C07Taylor.lean", "AurelVerif/Lemmas/C07Accuracy.lean",
+                            "AurelVerif/Lemmas/C07AccuracySplice.lean", "AurelVerif/Lemmas/C07Compose.lean",
+                            "AurelVerif/Spec/FDAccuracy.lean", "AurelVerif/Lemmas/Stencil.lean",
                             "AurelVerif/Lemmas/SpliceLemmas.lean", "AurelVerif/Lemmas/SpliceAux.lean", "AurelVerif/Lemmas/SpliceSpec.lean", "AurelVerif/Spec/FD.lean",
                             "AurelVerif/Model/Splice.lean", "AurelVerif/Gen/Stencils.lean"])
         if ctx.tier == "thorough":
-            ctx.leanchecker([MODULE])
+            ctx.leanchecker([MODULE, MODULE_C])
     # 4. correspondence
     cs = cases(ctx)
     try:
@@ -344,7 +358,7 @@ def replay(ctx, obj):
 
 MANIFEST = {
     "category": "proof",
-    "technique": "Lean 4 theorems: kernel-decided stencil moment tables (regenerated from source) lifted by a generic moments=>polynomial-exactness lemma; unbounded-N splice theorems over a hand model tied to the code by exact weight-matrix correspondence",
-    "text": "Proof for all N, orders, modes: the coefficient tables are regenerated from finitedifference.py on every run and decide +kernel checks offsets and moment conditions; a generic theorem lifts moments to exactness on every polynomial of degree <= p over any char-0 field; the splice model (one-sided/periodic/symmetric, axis exchange, tensor maps) is proven to produce the intended stencil at every grid point for every N above the stated minimum; the model is tied to the real d3x/d3y/d3z and d3_* by comparing complete weight matrices exactly.",
-    "note": "Trusted: Lean kernel + propext/Classical.choice/Quot.sound; the stencil translator; the hand-written splice model (validated by correspondence on N up to min+6 quick / min+30 thorough, all 4x3x3 configurations, non-cubic shapes); numpy semantics; exact-field arithmetic in place of IEEE-754.",
+    "technique": "Lean 4 theorems: kernel-decided stencil moment tables (regenerated from source) lifted by a generic moments=>polynomial-exactness lemma and a generic moments+Taylor(Lagrange)=>truncation-error lemma (Mathlib real analysis); unbounded-N splice theorems over a hand model tied to the code by exact weight-matrix correspondence",
+    "text": "Proof for all N, orders, modes: the coefficient tables are regenerated from finitedifference.py on every run and decide +kernel checks offsets and moment conditions; a generic theorem lifts moments to exactness on every polynomial of degree <= p over any char-0 field; the splice model (one-sided/periodic/symmetric, axis exchange, tensor maps) is proven to produce the intended stencil at every grid point for every N above the stated minimum; the model is tied to the real d3x/d3y/d3z and d3_* by comparing complete weight matrices exactly. Analytic half (Props/C07c): proven once from the moment conditions and Taylor's theorem with Lagrange remainder, for every f that is (p+1) times differentiable on an interval containing the stencil with |f^(p+1)| <= M: |(1/h) sum_k w_k f(x+kh) - f'(x)| <= C M |h|^p with C = sum_k |w_k||k|^(p+1)/(p+1)! evaluated by the kernel on the twelve regenerated tables (centered 1/6, 1/18, 47/2100, 1957/198450; one-sided 1, 17/3, 647/15, 118717/315 for orders 2,4,6,8); lifted through the splice model to EVERY grid point (edge points included) of the 'no boundary' mode for every N >= 3p/2, of the periodic mode (f of period N h) and of the symmetric mode (f even about both end points); plus error propagation: sums, products, safe quotients and any rational expression of O(h^p)-accurate quantities are O(h^p)-accurate with explicit constants.",
+    "note": "Trusted: Lean kernel + propext/Classical.choice/Quot.sound; the stencil translator; the hand-written splice model (validated by correspondence on N up to min+6 quick / min+30 thorough, all 4x3x3 configurations, non-cubic shapes); numpy semantics; exact-field arithmetic in place of IEEE-754. The accuracy theorems are statements about the model's rows evaluated in exact real arithmetic on samples f(x0 + j h) of one grid line (the 3-D operators act line by line: d3_natural / axis exchange). NOT proven: that nested differences (second derivatives computed as D(D f), as in the Christoffel-derivative / Ricci chain of C04-C06) keep order p - this needs discrete product/commutation estimates for the operators, in particular across the stencil switches of the one-sided mode; round-off; the constants are the simple bound sum|w||k|^(p+1)/(p+1)!, not the sharp leading-term constants.",
 }
